@@ -230,6 +230,7 @@ def rng_guards(deb):
 # ------------------------------------------------------------------ provenance probes (monkeypatched wrappers, no source change)
 class Recorder:
     def __init__(self):
+        self.draw_sites = set()
         self.active = False
         self.callers = [None] * 6
         self.items = set()
@@ -281,6 +282,7 @@ def wrap_targets():
         (m_ecdfm.ECDFM, "apply_on_window", "ECDFM.apply_on_window", SIX),
         (m_cdft.CDFt, "apply_on_window", "CDFt.apply_on_window", SIX),
         (m_cdft.CDFt, "_apply_debiasing_steps", "CDFt._apply_debiasing_steps", THREE),
+        (m_cdft.CDFt, "_randomize_zero_values_between_zero_and_threshold", "CDFt._randomize_zero_values_between_zero_and_threshold", ["x"]),
         (m_qdm.QuantileDeltaMapping, "apply_on_window", "QuantileDeltaMapping.apply_on_window", SIX),
         (m_qdm.QuantileDeltaMapping, "_apply_debiasing_steps", "QuantileDeltaMapping._apply_debiasing_steps", ["cm_future"]),
         (m_sdm.ScaledDistributionMapping, "apply_on_window", "ScaledDistributionMapping.apply_on_window", SIX),
@@ -363,6 +365,23 @@ def probes_installed():
                 setattr(mod, fname, seen_orig[1])
         if seen_orig is None:
             missing.append(fname)
+    # numpy's global-generator functions: record WHO draws (qualified name of the calling function)
+    for fname in ("uniform", "random", "random_sample", "normal", "rand", "randn", "randint", "choice", "shuffle", "permutation", "seed"):
+        orig = getattr(np.random, fname, None)
+        if orig is None:
+            continue
+
+        def make(orig_=orig, fname_=fname):
+            def rng_probe(*a, **k):
+                if REC.active:
+                    fr = sys._getframe(1)
+                    if str(fr.f_globals.get("__name__", "")).startswith("ibicus"):
+                        REC.draw_sites.add((getattr(fr.f_code, "co_qualname", fr.f_code.co_name), "np.random." + fname_))
+                return orig_(*a, **k)
+            return rng_probe
+
+        undo.append((np.random, fname, orig))
+        setattr(np.random, fname, make())
     try:
         yield missing
     finally:
@@ -604,7 +623,7 @@ def protocol(name, var, factory, randomised, entry, layout, dtype, times, tier, 
     # ---- run 1: read-only inputs, provenance recorded
     inp = Inputs(arrs, tarr, layout, entry, masks=masks)
     inp.readonly(True)
-    REC.items, REC.calls = set(), 0
+    REC.items, REC.calls, REC.draw_sites = set(), 0, set()
     REC.callers = inp.callers()
     REC.active = True
     ro_note = None
@@ -620,7 +639,7 @@ def protocol(name, var, factory, randomised, entry, layout, dtype, times, tier, 
             # a compiled routine refuses read-only buffers (not a write): fall back to writable inputs + byte comparison
             ro_note = f"{type(ex).__name__}: {str(ex)[:60]}"
             inp.readonly(False)
-            REC.items, REC.calls = set(), 0
+            REC.items, REC.calls, REC.draw_sites = set(), 0, set()
             REC.active = True
             try:
                 out1 = call(deb, inp, entry, seed)
@@ -640,6 +659,7 @@ def protocol(name, var, factory, randomised, entry, layout, dtype, times, tier, 
     finally:
         REC.active = False
     items = set(REC.items)
+    drawn = set(REC.draw_sites)
     if ro_note:
         res.extra.setdefault("readonly_not_tolerated", []).append(f"{name}: {ro_note}")
 
@@ -740,7 +760,7 @@ def protocol(name, var, factory, randomised, entry, layout, dtype, times, tier, 
 
     copied = conv or (masked and all(m.any() for m in masks))  # astype copies; filled copies iff a cell is masked
     ent = ("apply:%d:%d" % (int(copied), int(times != "none"))) if entry == "apply" else ("loc:%d" % int(times != "none"))
-    trace_jobs.append((case, model_cfg_tokens(deb, ent), items))
+    trace_jobs.append((case, model_cfg_tokens(deb, ent), items, drawn, guards))
     nz = int(np.isnan(out1).sum()) if np.issubdtype(out1.dtype, np.floating) else 0
     res.count((name, entry, layout, case["dtype"], times, bool(ties)), True,
               sample={**case, "n_out": int(out1.size), "nan_out": nz, "probe_calls": REC.calls, "readonly": ro_note is None})
@@ -786,6 +806,42 @@ def observe(inst, kind):
     yrs = "none" if yr is None else f"{yr.window_length_in_years}:{yr.window_step_length_in_years}"
     cdf = getattr(inst, "cdf_threshold", None) if kind == "QuantileDeltaMapping" else None
     return rws, yrs, cdf
+
+
+_VIEW_DATA = {}
+
+
+def observe_used_windows(inst):
+    """run the real apply_location on a small series and report which window objects it used: 'L:S|none,L:S|none'
+    (None = the call could not be made for a reason unrelated to the windows)"""
+    from ibicus.utils import RunningWindowOverDaysOfYear, RunningWindowOverYears
+
+    if not _VIEW_DATA:
+        nprs = np.random.RandomState(3)
+        t = dates_from(datetime.date(1990, 1, 1), 400)
+        _VIEW_DATA["d"] = (283 + nprs.standard_normal(400), 284 + nprs.standard_normal(400), 286 + nprs.standard_normal(400), t)
+    o, h, f, t = _VIEW_DATA["d"]
+    used = {"rw": "none", "yr": "none"}
+    o_rw, o_yr = RunningWindowOverDaysOfYear.use, RunningWindowOverYears.use
+
+    def use_rw(self, *a, **k):
+        used["rw"] = f"{self.window_length_in_days}:{self.window_step_length_in_days}"
+        return o_rw(self, *a, **k)
+
+    def use_yr(self, *a, **k):
+        used["yr"] = f"{self.window_length_in_years}:{self.window_step_length_in_years}"
+        return o_yr(self, *a, **k)
+
+    RunningWindowOverDaysOfYear.use, RunningWindowOverYears.use = use_rw, use_yr
+    try:
+        inst.apply_location(o, h, f, t, t, t)
+    except AttributeError:
+        return "AttributeError"  # a mode flag was switched on by assignment and nothing has built the window object yet
+    except Exception:  # noqa: BLE001
+        return None
+    finally:
+        RunningWindowOverDaysOfYear.use, RunningWindowOverYears.use = o_rw, o_yr
+    return f"{used['rw']},{used['yr']}"
 
 
 def gen_settings(rng, kind):
@@ -854,6 +910,11 @@ def instance_cases(rng, n, res, mismatches):
             if not ok:
                 continue
             st2["cdf"] = None if cdf is None else Fraction(cdf)  # the threshold the instance carries now
+            if kind in ("LinearScaling", "DeltaChange", "CDFt") and k % 2 == 0:
+                # what a direct apply_location reads now (no re-derivation): the window objects whose `use` is called
+                seen = observe_used_windows(inst)
+                lines.append(f"view {kind} {int(st2['rwm'])} {int(st2['yrm'])} {rws} {yrs}")
+                expect.append(("view", {**case, "rwm_now": st2["rwm"], "yrm_now": st2["yrm"]}, seen))
             try:
                 inst.__attrs_post_init__()
                 err2 = "ok"
@@ -863,8 +924,18 @@ def instance_cases(rng, n, res, mismatches):
         lines.append(derive_line(kind, st2, rws, yrs))
         expect.append(("rederive", {**case, "then": {a: (str(b) if isinstance(b, Fraction) else b) for a, b in st2.items()}}, (err2, rws2, yrs2, cdf2)))
     out = C.run_driver("DrvPurity", lines)
-    for (what, case, (err, rws, yrs, cdf)), got in zip(expect, out):
+    for (what, case, exp), got in zip(expect, out):
         res.cov["traces_validated_against_impl"] += 1
+        if what == "view":
+            if exp == "AttributeError":
+                # the model must show the same: a mode flag is on and the attribute it needs is absent
+                rwv, yrv = got[len("view="):].split(",")
+                if not ((case["rwm_now"] and rwv == "none") or (case["yrm_now"] and yrv == "none")):
+                    mismatches.append({"op": "instance-view", "case": case, "impl": "apply_location raised AttributeError (a window object is missing)", "model": got})
+            elif exp is not None and got != "view=" + exp:
+                mismatches.append({"op": "instance-view", "case": case, "impl": f"apply_location used the windows {exp}", "model": got})
+            continue
+        (err, rws, yrs, cdf) = exp
         toks = dict(t.split("=", 1) for t in got.split(" ")[1:] if "=" in t)
         gerr = got.split(" ")[0]
         bad = None
@@ -949,9 +1020,18 @@ def run(tier, res, force_search=False):
         "the store model itself: each modelled function as a straight-line program (Model.Purity.body); settings-dependent branches are separate configurations, "
         "data-dependent branches are merged (union of the stores, aliasing variant of the bindings)",
         "the write-site extractor translator/extract_writesites.py (syntactic: subscript/augmented/attribute assignment, in-place methods and functions, out=/overwrite keywords)",
-        "instance model: the numerical run is a function of (settings, active derived attributes, arguments, random draws) — validated by repeated/interleaved calls under np.random.seed",
+        "instance model: the numerical run is a function of (settings, active derived attributes, arguments, random draws) — validated by repeated/interleaved calls under np.random.seed; "
+        "apply_location reads the derived attributes as they are (Model.Instance.applyLocation) — validated by observing which window objects the real apply_location uses after attribute assignment",
+        "guard table Model.Purity.rngSitesJ (which setting switches which np.random call site on) — validated per run: every function seen calling np.random.* must be a listed site whose guard is on and whose draw is reachable in the model configuration",
     ]
     res.assumptions = [
+        "RUNTIME-ONLY clauses (decided by the oracle on the real code, no theorem can exhibit a failure): (1) numpy view/copy behaviour incl. "
+        "MaskedArray.filled returning the data buffer when nothing is masked, dtype conversion and read-only flags — the model carries them as the trusted "
+        "classification NpOp.aliases and the Entry.apply conv flag; (2) bit-identity of the numerical run for equal (view, arguments, draws) — the model's `run` is a "
+        "parameter; (3) the process pool (apply(parallel=True, nr_processes=1) re-seeded repeat, pickling, worker initialisers) — not modelled, tier A only lists "
+        "pool constructions with initialisers as global state; (4) the actual state of numpy's global generator (np.random.get_state) — the model has a draw counter "
+        "advanced only at the guarded draw statements (Props.C12.generator_moves_only_under_guard); that the listed sites are the only draws is tier A (rngSites) and "
+        "the per-run comparison of who calls np.random.* (tier B)",
         "PARTIAL: proof over an alias model; numpy's actual view/copy behaviour and the absence of hidden writes inside numpy/scipy routines are assumptions validated by probes, not proved",
         "the alias model covers the serial path; parallel=True is exercised only for seed-determinism (one worker, re-seeded repeat) — grids through the pool are C05; metrics/evaluate are out of scope",
         "the randomised configurations are compared after re-seeding numpy's global generator (np.random.seed)",
@@ -992,13 +1072,43 @@ def run(tier, res, force_search=False):
     # ---- provenance table: model vs np.shares_memory
     try:
         lines, owners = [], []
-        for j, (case, toks, items) in enumerate(trace_jobs):
+        for j, (case, toks, items, drawn, guards) in enumerate(trace_jobs):
             for t in toks:
                 lines.append("trace " + t)
                 owners.append(j)
-        out = C.run_driver("DrvPurity", lines) if lines else []
+        nt = len(lines)
+        for j, (case, toks, items, drawn, guards) in enumerate(trace_jobs):
+            for t in toks:
+                lines.append("draws " + t)
+                owners.append(j)
+        lines.append("rngsites")
+        out_all = C.run_driver("DrvPurity", lines)
+        out = out_all[:nt]
+        # ---- who draws: the functions seen calling np.random.* against the model's draw statements and guards
+        site_tbl = {}
+        for row in out_all[-1].split(";"):
+            src_fn, callee, guard, model_fn = row.split("|")
+            site_tbl[(src_fn, callee)] = (guard, model_fn)
+        model_draws = [set() for _ in trace_jobs]
+        for j, line in zip(owners[nt:], out_all[nt:-1]):
+            if line not in ("-", "bad-op"):
+                model_draws[j].update(line.split(","))
+        n_draw_sites = 0
+        for (case, toks, items, drawn, guards), md in zip(trace_jobs, model_draws):
+            for site in sorted(drawn):
+                n_draw_sites += 1
+                if site not in site_tbl:
+                    mismatches.append({"op": "draw-site", "case": case, "impl": f"{site[0]} calls {site[1]}", "model": "not a listed draw site (Model.Purity.rngSitesJ)"})
+                    continue
+                guard, model_fn = site_tbl[site]
+                if guard not in guards:
+                    mismatches.append({"op": "draw-site", "case": case, "impl": f"{site[0]} drew although the guard {guard} is off (guards on: {guards})", "model": "Model.Purity.rngSitesJ"})
+                elif f"{model_fn}:{guard}" not in md:
+                    mismatches.append({"op": "draw-site", "case": case, "impl": f"{site[0]} drew", "model": f"no reachable `draw {guard}` in {model_fn} for {' '.join(toks)}"})
+        res.extra["draw_sites_compared"] = n_draw_sites
+        trace_jobs = [t[:3] for t in trace_jobs]
         model_items = [set() for _ in trace_jobs]
-        for j, line in zip(owners, out):
+        for j, line in zip(owners[:nt], out):
             parts = line.split(" ")
             if len(parts) != 3 or parts[0] != "1" or parts[1] != "1":
                 mismatches.append({"op": "trace", "case": trace_jobs[j][0], "impl": "", "model": f"model configuration not safe / no trace: {line[:120]}"})
